@@ -551,6 +551,31 @@ func (x *Exec) runBody(fr *Frame, entry *State) {
 		if len(states) == 0 {
 			continue
 		}
+		// a small latch block (i++ and the jump back) reached from several paths is
+		// executed once per path: the invariant is then checked per path instead of
+		// on a merged state (far easier for the solvers; same meaning)
+		if len(states) > 1 && x.isSplittableLatch(fr, b) {
+			for k, s1 := range states {
+				x.sc.Comment(fmt.Sprintf("block %s.%d %s (path %d)", fn.Name(), b.Index, b.Comment, k))
+				one := []edgeState{live[k]}
+				for _, ins := range b.Instrs {
+					phi, ok := ins.(*ssa.Phi)
+					if !ok {
+						break
+					}
+					fr.env[phi] = x.phiMerge(fr, phi, b, one)
+				}
+				for _, ins := range b.Instrs {
+					if _, ok := ins.(*ssa.Phi); ok {
+						continue
+					}
+					if x.step(fr, s1, ins, incoming) {
+						break
+					}
+				}
+			}
+			continue
+		}
 		st := x.merge(states)
 		x.sc.Comment(fmt.Sprintf("block %s.%d %s", fn.Name(), b.Index, b.Comment))
 		// vacuity guard: a block entered shortly after a modelled or contracted
@@ -1158,4 +1183,32 @@ func defensiveExit(b *ssa.BasicBlock) bool {
 		b = b.Succs[0]
 	}
 	return false
+}
+
+// isSplittableLatch: b only computes values and jumps back to the head of a
+// loop it belongs to (no calls, no stores, no branching).
+func (x *Exec) isSplittableLatch(fr *Frame, b *ssa.BasicBlock) bool {
+	if len(b.Succs) != 1 {
+		return false
+	}
+	li := fr.loops[b.Succs[0]]
+	if li == nil || !li.body[b] || fr.loops[b] != nil {
+		return false
+	}
+	if len(b.Instrs) > 8 {
+		return false
+	}
+	for _, ins := range b.Instrs {
+		switch ins.(type) {
+		case *ssa.Phi, *ssa.BinOp, *ssa.UnOp, *ssa.Jump, *ssa.DebugRef, *ssa.Convert, *ssa.ChangeType:
+		default:
+			return false
+		}
+	}
+	for _, ins := range b.Instrs {
+		if u, ok := ins.(*ssa.UnOp); ok && u.Op == token.MUL {
+			return false // a load: keep the merged treatment
+		}
+	}
+	return true
 }
